@@ -4,6 +4,8 @@ segment to the log; the segment of `execGroups` is the concatenation, in group o
 entries all lie under `path ++ [key]`; within a segment all paths are pairwise distinct. -/
 namespace GqlModel.Exec
 
+theorem List.nodup_reverse' {α : Type} {l : List α} : l.reverse.Nodup ↔ l.Nodup := (List.reverse_perm l).nodup_iff
+
 /-- `q` strictly extends `p` -/
 def Path.Below (p q : Path) : Prop := ∃ seg rest, q = p ++ seg :: rest
 
@@ -132,7 +134,7 @@ theorem logP_groups (c : Ctx) (fuel : Nat) (ih : LogP c fuel) :
           subst h2
           refine ⟨new1, hl1, new1.reverse, [], by simp, ?_, ?_, Blocks.nil _ _⟩
           · intro e he; exact hp1 e (List.mem_reverse.mp he)
-          · rw [List.map_reverse]; exact List.nodup_reverse.mpr hn1
+          · rw [List.map_reverse]; exact List.nodup_reverse'.mpr hn1
         cases r1 with
         | ok v =>
           simp only at h
@@ -141,7 +143,7 @@ theorem logP_groups (c : Ctx) (fuel : Nat) (ih : LogP c fuel) :
           simp only [List.map_cons, List.reverse_append]
           refine ⟨new1.reverse, new2.reverse, rfl, ?_, ?_, hb2⟩
           · intro e he; exact hp1 e (List.mem_reverse.mp he)
-          · rw [List.map_reverse]; exact List.nodup_reverse.mpr hn1
+          · rw [List.map_reverse]; exact List.nodup_reverse'.mpr hn1
         | fail =>
           simp only [Prod.mk.injEq] at h
           exact hblock st' h.2.symm
